@@ -76,7 +76,7 @@ def monitor (s : Scn) (out : String) : String := Id.run do
   for p in objs do
     let k := keyOf cfg ow p
     if io.events.any (fun e => eventKey e == keyStr k) then continue
-    let want := (final.get k).map (objStr k)
+    let want := (final.get k).map (objStrI (instInit s) k)   -- untouched: still the label it started with
     let got := io.finals.find? (fun f => f.startsWith (keyStr k ++ "{"))
     -- rv is not printed; uid / owners / labels / payload are
     if want ≠ got then
